@@ -185,6 +185,9 @@ func (a *Authenticator) receivePAP(data []byte) error {
 	identifier := data[1]
 	length := binary.BigEndian.Uint16(data[2:4])
 
+	if length < 4 {
+		return fmt.Errorf("PAP length too short")
+	}
 	if int(length) > len(data) {
 		return fmt.Errorf("PAP length exceeds packet")
 	}
@@ -306,6 +309,9 @@ func (a *Authenticator) receiveCHAP(data []byte) error {
 	identifier := data[1]
 	length := binary.BigEndian.Uint16(data[2:4])
 
+	if length < 4 {
+		return fmt.Errorf("CHAP length too short")
+	}
 	if int(length) > len(data) {
 		return fmt.Errorf("CHAP length exceeds packet")
 	}
